@@ -339,7 +339,7 @@ func EncNode(an *ANode) interface{} {
 			brs = append(brs, O{"pat": pat, "guard": EncOps(b.Guard), "target": encTarget(b.Target)})
 		}
 	}
-	return O{"act": EncOps(an.Act), "native": an.Native, "partial": an.Native && an.Partial && len(an.Act)%2 == 0, // (an odd op-list fails with a bare Execution: no events to add) "btype": bt, "branches": brs}
+	return O{"act": EncOps(an.Act), "native": an.Native, "partial": an.Native && an.Partial && len(an.Act)%2 == 0 /* an odd op-list fails with a bare Execution: no events to add */, "btype": bt, "branches": brs}
 }
 
 // EncSpec encodes the abstract spec as compiled (Compile adds an empty "error" node).
